@@ -163,12 +163,12 @@ def obligations(tier):
     # ---- PARAFAC2: a sweep from an iterate with arbitrary weights returns all-ones weights without normalisation, unit-norm factors with it
     import tensorly.parafac2_tensor as p2t
     for nI in (2,):
-        for normalize in (False, True):
+        for normalize, budget in ((False, 1), (True, 1), (True, 0)):
             def p2_setup(S, nI=nI):
                 K = atom("K")
                 return dict(_S=S, Xs=[S.input(f"X{i}", [atom(f"J{i}"), K]) for i in range(nI)], w=S.input("w", [R]), A=S.input("A", [nI, R]), B=S.input("B", [R, R]), Cc=S.input("Cm", [K, R]),
                             P=[S.input(f"P{i}", [atom(f"J{i}"), R]) for i in range(nI)], K=K)
-            def p2_call(I, normalize=normalize):
+            def p2_call(I, normalize=normalize, budget=budget):
                 from .c03 import _noval
                 S = I["_S"]
                 sym = S.name == "sym"
@@ -188,7 +188,9 @@ def obligations(tier):
                         st = cut.prefix(list(I["Xs"]), Rr, return_errors=True, tol=0, normalize_factors=normalize)
                         st["factors"] = list(st["factors"])
                         st["rec_errors"] = []
-                        kind, st2 = cut.body(st, 0)
+                        st2 = st
+                        if budget:
+                            kind, st2 = cut.body(st, 0)
                         ret = cut.suffix(st2)
                     t = ret[0]
                     return dict(weights=t.weights, factors=list(t.factors))
@@ -197,8 +199,8 @@ def obligations(tier):
                 if normalize:
                     return unit_norm_pairs(S, "normalize_factors=True", r["factors"])
                 return [("normalize_factors=False: weights are all ones (the running weights are folded into B, not kept)", r["weights"], S.ones([S.shape(I["w"])[0]]))]
-            add("_parafac2:parafac2", f"slices={nI},normalize_factors={normalize},sweep from arbitrary weights", p2_setup, p2_call, p2_post, dict(n_slices=nI, normalize_factors=normalize),
-                "normalisation contract after a sweep", side_nonzero=True, assumptions=lambda I: [R <= I["K"]] + [R <= x.shape[0] for x in I["Xs"]])
+            add("_parafac2:parafac2", f"slices={nI},normalize_factors={normalize}," + ("sweep from arbitrary weights" if budget else "zero budget: the initialisation is returned"), p2_setup, p2_call, p2_post,
+                dict(n_slices=nI, normalize_factors=normalize, budget=budget), "normalisation contract after a sweep" if budget else "normalisation contract at a zero iteration budget", side_nonzero=True, assumptions=lambda I: [R <= I["K"]] + [R <= x.shape[0] for x in I["Xs"]])
     # ---- coupled matrix-tensor factorisation: both returned models are normalised and still represent the iterate
     import tensorly.decomposition._cmtf_als as _cm
     def cm_setup(S):
@@ -436,6 +438,11 @@ def obligations(tier):
             return out
         add("_parafac2:_compute_projections", f"slices={nI}", setup, call, post, dict(n_slices=nI), "one orthonormal projection per slice",
             assumptions=lambda I: [R <= atom("K")] + [R <= atom(f"J{i}") for i in range(len(I["Xs"]))])
+    # ====================================================================== bounded stand-in (never counted as proved): end-to-end native survey - the real
+    # entry points, unstubbed, on seeded tensors; a cross-check of the composed contracts on what they assume away (degenerate data, option combinations)
+    from .c09 import BoundedOb
+    from . import e2e_native
+    obs.append(BoundedOb(f"{PID}/bounded/native survey: shapes, boundary ranks, orthonormality, core = projection, normalisation contract on every exit", "tensorly.decomposition:parafac+non_negative_parafac+non_negative_parafac_hals+tucker+tensor_train+tensor_ring+parafac2", lambda: e2e_native.c08(tier), dict(orders="2-3 (4 thorough)", rank_specifications="int, list, same, fraction", budgets="0, 1, 6, convergence stop"), "seed 0; tolerances 1e-8", pid=PID))
     return obs
 
 
